@@ -86,11 +86,12 @@ SHAPES = [
     ("gentype:uri", "any(uri() for uri in [r.s.upper])", True), ("gentype:net", "any(net.ipaddress('1.2.3.4') == '1.2.3.4' for net in [r.c])", False),
     ("gentype:helper", "any(upper() for upper in [r.c])", True), ("gentype:str", "any(str() for str in [r.c])", True),
     ("gentype:r", "any(r() for r in [r.c])", True), ("gentype:any", "any(any() for any in [r.c])", True),
-    # --- lambda, subscript, conditional, comprehension, starred
-    ("lambda:call", "(lambda: r.c())()", True), ("lambda:value", "(lambda: 1)", True),
-    ("subscript:call", "[r.c][0]()", True), ("subscript:value", "r.l[0]", True), ("ifexp", "(r.c if True else 1)()", True),
-    ("listcomp", "[f() for f in [r.c]]", True), ("dict", "{'a': r.c}['a']()", True), ("set", "{r.n}", True),
-    ("starred", "upper(*[r.c])", True), ("starstar", "upper(**{'s': r.c})", True), ("fstring", "f'{r.c()}'", True),
+    # --- lambda, subscript, conditional, comprehension, starred (shapes that are neither a call of a foreign
+    #     callable nor a dunder access carry no "must raise" expectation: only "nothing foreign is invoked")
+    ("lambda:call", "(lambda: r.c())()", True), ("lambda:value", "(lambda: 1)", False),
+    ("subscript:call", "[r.c][0]()", True), ("subscript:value", "r.l[0]", False), ("ifexp", "(r.c if True else 1)()", True),
+    ("listcomp", "[f() for f in [r.c]]", True), ("dict", "{'a': r.c}['a']()", True), ("set", "{r.n}", False),
+    ("starred", "upper(*[r.c])", False), ("starstar", "upper(**{'s': r.c})", False), ("fstring", "f'{r.c()}'", True),
     ("walrus", "(x := r.c)()", True), ("dunder:call", "r.c.__call__()", True),
     # --- dunder attribute access
     ("dunder:class", "r.__class__", True), ("dunder:chain", "r.s.__class__.__name__", True),
@@ -98,6 +99,9 @@ SHAPES = [
     ("dunder:subclasses", "str.__subclasses__()", True), ("dunder:dict", "r.__dict__", True),
     ("dunder:type", "Type.__class__", True), ("dunder:init", "r.c.__init__('x')", True),
     ("dunder:mid", "r.__class__.__mro__", True),
+    # --- a bare double-underscore *name*: not in the namespace, so it is looked up on the whitelist module object
+    ("dundername:class", "__class__", True), ("dundername:dict", "__dict__", True),
+    ("dundername:attr", "__class__.gettypename", True), ("dundername:init", "__init__", True),
 ]
 BENIGN = [
     ("ok:upper", "upper(r.s)", False), ("ok:lower_cmp", "lower(r.s) == 'abc'", False), ("ok:str", "str(r.n)", False),
@@ -371,4 +375,10 @@ def shrink(case):
             yield {"kind": case["kind"], "shape": label, "ctx": "bare", "src": src, "refused": refused}
 
 
-MATCHERS = {}
+def m_dunder_name_fallback(case, obs, failure):
+    # a refused-shape expectation failed (nothing was invoked, nothing changed), on a bare dunder Name
+    return (case["shape"].startswith("dundername:") and "error" not in obs and not obs["direct"] and not obs["dunder"]
+            and not obs["tripwire"] and not obs["record_changed"] and not obs["setattr"])
+
+
+MATCHERS = {"dunder_name_fallback": m_dunder_name_fallback}
